@@ -51,6 +51,11 @@ func (si *SearchIndex) Search(targetKey []byte, readKey func(offset int64) ([]by
 	// BinarySearch returns the _greater_ index when we don't find an exact match
 	// so subtract one here to start searching from the earlier index.
 	if !isExact {
+		// The first offset is the first entry: a target that sorts before it is
+		// not in the table (reachable on a bloom filter false positive).
+		if foundIndex == 0 {
+			return 0, 0, nil
+		}
 		foundIndex--
 	}
 
